@@ -386,7 +386,7 @@ func pubsubHarness(rc *RunCtx) {
 			}
 			m := &psMsg{id: seq, phase: phase, item: it, hdr: map[string]string{}, cid: "cid-" + genString(tp, "hdr", 5)}
 			for i, n := 0, tp.Intn("hdr", 4); i < n; i++ {
-				m.hdr["h"+genString(tp, "hdr", 3)] = genString(tp, "hdr", 8)
+				m.hdr[[]string{"h", "h", "h", "_", "_trace", "H", "__", "_opid2"}[tp.Intn("hdrname", 8)]+genString(tp, "hdr", 3)] = genString(tp, "hdr", 8)
 			}
 			msgs[seq] = m
 			order = append(order, m)
@@ -400,7 +400,12 @@ func pubsubHarness(rc *RunCtx) {
 			onlyTimeout := ctx == lastCtx && tp.Intn("reuse", 2) == 1
 			lastCtx = ctx
 			m.timeout = time.Duration(1+tp.Intn("hdr", 90000)) * time.Millisecond
+			if k := tp.Intn("tmo0", 8); k >= 5 {
+				// a publish has no deadline to keep: zero, sub-millisecond and negative timeouts are just values
+				m.timeout = []time.Duration{0, 500 * time.Microsecond, -time.Second}[k-5]
+			}
 			ctx.SetTimeout(m.timeout)
+			m.timeout = ctx.Timeout() // what the publisher's own context reports
 			for k, v := range m.hdr {
 				if !onlyTimeout {
 					ctx.AddRequestHeader(k, v)
